@@ -275,8 +275,15 @@ def _from_others(draw):
     mods = _mods()
     # the eliminations, compositions and quotients reach the deepest code: weight them
     pid = draw(st.sampled_from(sorted(mods) + [m for m in ("C04", "C04", "C04", "C01", "C02", "C02") if m in mods]))
-    if pid == "C04" and draw(st.booleans()):
-        return {"part": "A", "src": pid, "case": draw(mods[pid].deep_strategy())}
+    if pid == "C04":
+        case = draw(mods[pid].deep_strategy()) if draw(st.booleans()) else draw(mods[pid].strategy("quick"))
+        scheme = draw(st.sampled_from(["plain", "plain", "symbols", "prefix", "shapes"]))
+        if scheme != "plain":
+            # the same elimination under unusual variable names (look-alikes of numbers / well-known symbols, prefixes, underscores)
+            m = gens.NAME_SCHEMES[scheme]
+            case = dict(case, terms=gens.rename_terms(case["terms"], m), ctx=gens.rename_terms(case["ctx"], m),
+                        elim=[m.get(v, v) for v in case["elim"]])
+        return {"part": "A", "src": pid, "case": case, "names": scheme}
     return {"part": "A", "src": pid, "case": draw(mods[pid].strategy("quick"))}
 
 
